@@ -995,11 +995,21 @@ func RunAll(run *vlib.Run, only func(h string) bool) map[string]any {
 		ps    int
 		start uint32
 	}
+	var cases []Case
 	geos := []geo{{512, 4}, {4096, 4}}
+	if !run.Thorough() {
+		// the largest page size for the WAL histories whose log holds more than the newest transaction
+		for _, h := range []string{"H7b-wal-second-tx", "H7c-wal-unwritten-tail"} {
+			if only == nil || only(h) {
+				for v := 0; v < 2; v++ {
+					cases = append(cases, Case{H: h, PageSize: 65536, Start: 4, Variant: v})
+				}
+			}
+		}
+	}
 	if run.Thorough() {
 		geos = append(geos, geo{512, 257}, geo{1024, 300}, geo{65536, 4}, geo{8192, 5})
 	}
-	var cases []Case
 	for _, g := range geos {
 		for _, h := range hs {
 			if only != nil && !only(h.name) {
